@@ -1,7 +1,20 @@
 //! Kani proof harnesses over rust-vmm/vm-memory built with feature "xen" (mmap/xen.rs replaces mmap/unix.rs).
+//! Shares the libc models and helpers with harness/std through #[path].
 #![allow(dead_code, unused_imports, unused_variables, unused_mut, clippy::all)]
 #![cfg_attr(kani, feature(allocator_api))]
+extern crate alloc;
 
 #[cfg(kani)]
 #[kani::proof]
 fn __setup_noop() {}
+
+#[cfg(kani)]
+#[path = "../../std/src/cffi.rs"]
+mod cffi;
+#[cfg(kani)]
+#[path = "../../std/src/common.rs"]
+mod common;
+#[cfg(kani)]
+mod xstubs;
+#[cfg(kani)]
+mod x15;
